@@ -80,10 +80,21 @@ class Ctx(object):
             self._drv = Driver(self.flavor)
         return self._drv
 
+    def drv_flavor(self, flavor):
+        """additional driver of another build flavor (e.g. 'ndebug' for assert triage / fall-back)"""
+        if not hasattr(self, '_extra'):
+            self._extra = {}
+        if flavor not in self._extra:
+            self._extra[flavor] = Driver(flavor)
+        return self._extra[flavor]
+
     def close(self):
         if self._drv is not None:
             self._drv.close()
             self._drv = None
+        for d in getattr(self, '_extra', {}).values():
+            d.close()
+        self._extra = {}
 
     def note(self, case, nontrivial, classes=(), sample_text=None):
         """classify one executed case"""
